@@ -1448,7 +1448,7 @@ def sysabs(hkl, syscond, crystal_system='triclinic', cell_choice='standard'):
     """
 
     sys_type = sysabs_unique(hkl, syscond)
-    if cell_choice == 'rhombohedral':
+    if cell_choice == 'rhombohedral' or crystal_system == 'cubic':
         if sys_type == 0:
             h = hkl[1]
             k = hkl[2]
